@@ -1,3 +1,4 @@
+import ast
 import tokenize
 from pathlib import Path
 
@@ -32,7 +33,20 @@ class SourceFile:
         return self._source.asttokens()
 
     def _token_to_code(self, tokens):
-        return self._format(tokenize.untokenize(tokens)).strip()
+        code = tokenize.untokenize(tokens).strip()
+        formatted_code = self._format(code).strip()
+
+        try:
+            same_ast = ast.dump(ast.parse(formatted_code)) == ast.dump(ast.parse(code))
+        except SyntaxError:
+            same_ast = False
+
+        if not same_ast:
+            # the formatter changed the meaning of the code fragment
+            # (black handles a single string like a docstring and strips it)
+            return code
+
+        return formatted_code
 
     def _value_to_code(self, value):
         return self._token_to_code(value_to_token(value))
